@@ -1033,57 +1033,22 @@ func nttConjugateInvariantLazyUnrolled16(p1, p2 []uint64, N int, Q, MRedConstant
 
 		} else {
 
-			if reduce {
+			// The last layer always reduces: the output is in [0, 6q-2] whatever the parity of log2(N)
+			for i, j1 := m, 0; i < h+m; i, j1 = i+8, j1+16 {
 
-				for i, j1 := m, 0; i < h+m; i, j1 = i+8, j1+16 {
+				/* #nosec G103 -- behavior and consequences well understood, possible buffer overflow if len(roots)%8 != 0 */
+				psi := (*[8]uint64)(unsafe.Pointer(&roots[i]))
+				/* #nosec G103 -- behavior and consequences well understood, possible buffer overflow if len(p2)%16 != 0 */
+				x := (*[16]uint64)(unsafe.Pointer(&p2[j1]))
 
-					/* #nosec G103 -- behavior and consequences well understood, possible buffer overflow if len(roots)%8 != 0 */
-					psi := (*[8]uint64)(unsafe.Pointer(&roots[i]))
-					/* #nosec G103 -- behavior and consequences well understood, possible buffer overflow if len(p2)%16 != 0 */
-					x := (*[16]uint64)(unsafe.Pointer(&p2[j1]))
-
-					x[0], x[1] = butterfly(x[0], x[1], psi[0], twoQ, fourQ, Q, MRedConstant)
-					x[2], x[3] = butterfly(x[2], x[3], psi[1], twoQ, fourQ, Q, MRedConstant)
-					x[4], x[5] = butterfly(x[4], x[5], psi[2], twoQ, fourQ, Q, MRedConstant)
-					x[6], x[7] = butterfly(x[6], x[7], psi[3], twoQ, fourQ, Q, MRedConstant)
-					x[8], x[9] = butterfly(x[8], x[9], psi[4], twoQ, fourQ, Q, MRedConstant)
-					x[10], x[11] = butterfly(x[10], x[11], psi[5], twoQ, fourQ, Q, MRedConstant)
-					x[12], x[13] = butterfly(x[12], x[13], psi[6], twoQ, fourQ, Q, MRedConstant)
-					x[14], x[15] = butterfly(x[14], x[15], psi[7], twoQ, fourQ, Q, MRedConstant)
-				}
-			} else {
-
-				for i, j1 := m, 0; i < h+m; i, j1 = i+8, j1+16 {
-
-					/* #nosec G103 -- behavior and consequences well understood, possible buffer overflow if len(roots)%16 != 0 */
-					psi := (*[8]uint64)(unsafe.Pointer(&roots[i]))
-					/* #nosec G103 -- behavior and consequences well understood, possible buffer overflow if len(p2)%16 != 0 */
-					x := (*[16]uint64)(unsafe.Pointer(&p2[j1]))
-
-					V = MRedLazy(x[1], psi[0], Q, MRedConstant)
-					x[0], x[1] = x[0]+V, x[0]+twoQ-V
-
-					V = MRedLazy(x[3], psi[1], Q, MRedConstant)
-					x[2], x[3] = x[2]+V, x[2]+twoQ-V
-
-					V = MRedLazy(x[5], psi[2], Q, MRedConstant)
-					x[4], x[5] = x[4]+V, x[4]+twoQ-V
-
-					V = MRedLazy(x[7], psi[3], Q, MRedConstant)
-					x[6], x[7] = x[6]+V, x[6]+twoQ-V
-
-					V = MRedLazy(x[9], psi[4], Q, MRedConstant)
-					x[8], x[9] = x[8]+V, x[8]+twoQ-V
-
-					V = MRedLazy(x[11], psi[5], Q, MRedConstant)
-					x[10], x[11] = x[10]+V, x[10]+twoQ-V
-
-					V = MRedLazy(x[13], psi[6], Q, MRedConstant)
-					x[12], x[13] = x[12]+V, x[12]+twoQ-V
-
-					V = MRedLazy(x[15], psi[7], Q, MRedConstant)
-					x[14], x[15] = x[14]+V, x[14]+twoQ-V
-				}
+				x[0], x[1] = butterfly(x[0], x[1], psi[0], twoQ, fourQ, Q, MRedConstant)
+				x[2], x[3] = butterfly(x[2], x[3], psi[1], twoQ, fourQ, Q, MRedConstant)
+				x[4], x[5] = butterfly(x[4], x[5], psi[2], twoQ, fourQ, Q, MRedConstant)
+				x[6], x[7] = butterfly(x[6], x[7], psi[3], twoQ, fourQ, Q, MRedConstant)
+				x[8], x[9] = butterfly(x[8], x[9], psi[4], twoQ, fourQ, Q, MRedConstant)
+				x[10], x[11] = butterfly(x[10], x[11], psi[5], twoQ, fourQ, Q, MRedConstant)
+				x[12], x[13] = butterfly(x[12], x[13], psi[6], twoQ, fourQ, Q, MRedConstant)
+				x[14], x[15] = butterfly(x[14], x[15], psi[7], twoQ, fourQ, Q, MRedConstant)
 			}
 		}
 	}
